@@ -19,6 +19,7 @@ CC   CNF compilation: a clause is a fold of `or` over var(label(lit), polarity(l
 """
 from . import mir, canon
 from .base import inst, OK, VIOLATION, UNDECIDED, strip, bool_arms, P, C, K, ANY, T, match
+from .base import verdict_of, errtext
 from .facts import CheckerError
 from .mir import show
 from .fs import update_op, const_kind
@@ -470,5 +471,74 @@ def cc(prog):
     return out
 
 
+def sh6(prog):
+    """(SH6) conditioning on a partial model is conditioning on each of its literals in turn: the fold over
+    `assignment_iter()` threads the diagram through `condition(acc, label(l), polarity(l))` for one and the same literal l,
+    starts from the given diagram, visits every literal and returns the accumulator."""
+    from . import canon, nc
+    out = []
+    fs_ = [f for f in prog.lib_fns if f.name == "condition_model" and f.kind != "Closure"]
+    for fn in fs_:
+        bodies = canon.local_bodies(prog, fn, ok=lambda h: True)
+        sites = [(g, cs) for g in bodies for cs in g.terms.calls if cs.callee.name in ("condition", "cond_with_alloc") and len(cs.args) >= 4]
+        errs = []
+        key = "%s:SH6:each-literal" % fn.npath
+        if len(sites) != 1:
+            out.append(inst("SH", key, UNDECIDED, fn, None, "expected one conditioning step under condition_model, found %d" % len(sites)))
+            continue
+        g, cs = sites[0]
+        te = g.terms
+        acc, lab, pol = strip(cs.args[1]), strip(cs.args[2]), strip(cs.args[3])
+        # the literal
+        if not (mir.is_call(lab, "label") and len(lab[2]) == 1):
+            errs.append("?the conditioned variable is %s, not the label of a literal of the model" % show(lab)[:50])
+        elif mir.is_call(pol, "polarity") and len(pol[2]) == 1:
+            if strip(pol[2][0]) != strip(lab[2][0]):
+                errs.append("the variable comes from %s but the value from %s: a literal's variable is set to another literal's "
+                            "polarity" % (show(lab[2][0])[:40], show(pol[2][0])[:40]))
+        elif pol[0] == "un" and pol[1] == "Not" and mir.is_call(strip(pol[2]), "polarity"):
+            errs.append("the variable is conditioned on the negation of the literal's polarity: the result is f restricted to "
+                        "the complement of the model")
+        elif pol[0] == "const":
+            errs.append("every variable of the model is conditioned on the constant %s, whatever the literal's polarity" % show(pol))
+        else:
+            errs.append("?the conditioning value is %s" % show(pol)[:50])
+        # the accumulator
+        if acc[0] == "mu":
+            init = strip(te.mu_init.get((acc[1], acc[2]), ("?",)))
+            ups = [strip(u) for u in te.mu_update.get((acc[1], acc[2]), [])]
+            res = ("call", cs.callee, cs.args)
+            if init[0] != "param":
+                errs.append("?the fold starts from %s" % show(init)[:40])
+            if not ups or any(not (mir.is_call(u, cs.callee.name) and strip(u[2][1]) == acc) for u in ups):
+                errs.append("?the loop-carried diagram is not updated by the conditioning step alone")
+            if strip(te.ret) != acc and not any(strip(x) == acc for x in mir.subterms(te.ret)):
+                errs.append("the function does not return the diagram it has conditioned (%s)" % show(te.ret)[:40])
+        elif acc[0] == "param" and g.kind == "Closure":
+            # fold(init, |acc, lit| condition(acc, ..)): the closure's first explicit parameter
+            if acc[1] != 2:
+                errs.append("?the folded closure conditions its parameter %d" % acc[1])
+        elif acc[0] == "param":
+            if cs.bb in g.cfg.loop_blocks if hasattr(g.cfg, "loop_blocks") else any(cs.bb in body for body in g.cfg.loop_headers.values()):
+                errs.append("every literal is conditioned on the *original* diagram %s, not on the result so far: only the last "
+                            "literal of the model takes effect" % show(acc))
+            else:
+                errs.append("?the conditioning step is not inside a loop over the model")
+        else:
+            errs.append("?the diagram handed to the conditioning step is %s" % show(acc)[:50])
+        # every literal
+        names = [c.callee.name for b in bodies for c in b.terms.calls]
+        if "assignment_iter" not in names:
+            errs.append("?the literals do not come from assignment_iter()")
+        drop = [n_ for n_ in names if n_ in nc.DROPPING]
+        if drop:
+            errs.append("the model's literals pass through `%s` before they are conditioned on: some are skipped" % drop[0])
+        out.append(inst("SH", key, verdict_of(errs), fn, cs.line, errtext(errs) if errs else
+                        "fold over assignment_iter(): acc = condition(acc, label(l), polarity(l)), from the given diagram, all literals"))
+    if not fs_:
+        out.append(inst("SH", "condition_model:SH6:each-literal", UNDECIDED, None, None, "condition_model not found"))
+    return out
+
+
 def run(prog):
-    return sh1(prog) + sh2(prog) + sh3(prog) + sh4(prog) + sh5(prog) + cc(prog)
+    return sh1(prog) + sh2(prog) + sh3(prog) + sh4(prog) + sh5(prog) + cc(prog) + sh6(prog)
